@@ -211,6 +211,12 @@ func VX_C14_tojson() {
 		n = len(fls)
 		P = n
 		names, cols = []string{"f"}, []vxCol{{typ: "float", f: fls}}
+	case "ints": // limits of int and every digit count through the real digit code
+		ints := []int{math.MinInt64, math.MaxInt64, math.MinInt64 + 1, -1, 0, 9, 10, 99, 100, 101, 999, 1000, 9999, 10000, 99999, 100000, 123456, 1234567, 99999999, 100000000,
+			4294967295, 4294967296, -4294967296, 999999999999, 1000000000000000000, -1000000000000000000, 9223372036854775806, -9223372036854775807, -10, -99, -100}
+		n = len(ints)
+		P = n
+		names, cols = []string{"i"}, []vxCol{{typ: "int", i: ints}}
 	case "pow2": // powers of two (the lower rounding interval is narrower there) and of ten, limits, their neighbours
 		var fls []float64
 		for _, k := range []int{-1074, -1073, -1023, -1022, -1021, -500, -100, -25, -24, -10, -1, 0, 1, 10, 52, 53, 54, 63, 64, 65, 100, 500, 1000, 1023} {
@@ -259,7 +265,7 @@ func VX_C14_tojson() {
 		k := vxConc(vx.IntN(0, 1), 2) // and the solver picks one of two arrangements
 		ix[0], ix[k*(n-1)] = ix[k*(n-1)], ix[0]
 	}
-	if shape == "digits" || shape == "pow2" {
+	if shape == "digits" || shape == "pow2" || shape == "ints" {
 		ix = vxIota(n)
 		k := vxConc(vx.IntN(0, n-1), n)
 		ix[0], ix[k] = ix[k], ix[0]
